@@ -6,6 +6,7 @@ import (
 	"io"
 	"os"
 	"path"
+	"path/filepath"
 	"regexp"
 	"strings"
 	"syscall"
@@ -841,6 +842,23 @@ func (r *Run) outKind(j *JobRec, p, name, content string) (string, bool) {
 		return ep
 	}
 	switch hash64(r.FCfg.Salt, j.Key(), j.Phase, name, "outkind") % 15 {
+	case 7:
+		// ... the same, named relative to the working directory
+		e := ext()
+		r.Files[e] = &FileRec{Path: e, Content: content, Kind: "outside", Job: j, Seq: vos.NextSeq()}
+		wd, err := os.Getwd()
+		if err != nil {
+			return e, true
+		}
+		rel, err := filepath.Rel(wd, e)
+		if err != nil {
+			return e, true
+		}
+		if !strings.HasPrefix(rel, "../") {
+			rel = "./" + rel
+		}
+		r.Faults["stage-output-is-relative-path-outside-pipestance"]++
+		return rel, true
 	case 6:
 		// a chain of relative links through another directory: each hop has to be
 		// resolved against the directory of the link it was read from
